@@ -329,6 +329,14 @@ class SimContext:
         return b
 
     def Pool(self, processes=None, initializer=None, initargs=(), maxtasksperchild=None):
+        err = self.sim.pool_start_error
+        if err is not None:
+            # the operating system refuses to start the worker processes (fork: EAGAIN / ENOMEM): Pool.__init__
+            # terminates whatever it had started and re-raises
+            self.sim.pool_start_error = None
+            self.sim.pool_start_fired = True
+            self.sim.k.yield_point("P:start-failed")
+            raise err
         return SimPool(self.sim, processes, initializer, initargs, maxtasksperchild)
 
     def Lock(self):
@@ -360,6 +368,8 @@ class SimMP:
         self.pools = []
         self.barriers = []
         self.contexts = []
+        self.pool_start_error = None    # armed by the world: the next Pool() fails to start its workers
+        self.pool_start_fired = False
         self._wid = 0
         self._id = 0
         self.shared_memory = None     # set by the sandbox
